@@ -125,9 +125,11 @@ def signature_checks():
     for (c1, p1, s1), (c2, p2, s2) in itertools.combinations(sigs, 2):
         if c1 != c2:
             continue
-        stats["pairs"] += 1
+        stats["pairs"] += 2
         if (s1 == s2) != (p1 == p2):
             fails.append(("C20", f"{c1}: == is {s1 == s2} for parameters {p1} vs {p2}", f"eq:{c1}"))
+        if (s2 == s1) != (p1 == p2):                       # == must not depend on the operand order
+            fails.append(("C20", f"{c1}: == is {s2 == s1} for parameters {p2} vs {p1}", f"eq:{c1}"))
     for c, p, mk in rows:
         if not (mk() == mk()):
             fails.append(("C20", f"{c}{p}: two signatures with equal parameters compare unequal", f"eq-self:{c}"))
